@@ -1122,7 +1122,10 @@ func parseGuard(a Atom, be *BigEval) (Guard, bool) {
 		la, ok1 := affineOf(L)
 		ra, ok2 := affineOf(R)
 		if ok1 && ok2 {
-			if guardRank(ra.String()) > guardRank(la.String()) {
+			rl, rr := guardRank(la.String()), guardRank(ra.String())
+			// the less bound-like operand is the subject; between two equally subject-like operands the
+			// lexicographically smaller one, so that `a < b` and `b > a` are the same guard
+			if rr > rl || (rr == rl && rr == 2 && !ra.isConst() && !la.isConst() && ra.String() < la.String()) {
 				return Guard{Kind: "int", Subject: ra.String(), SubjV: R, Rel: relFlip[rel], BoundA: la}, true
 			}
 			return Guard{Kind: "int", Subject: la.String(), SubjV: L, Rel: rel, BoundA: ra}, true
@@ -1134,6 +1137,45 @@ func parseGuard(a Atom, be *BigEval) (Guard, bool) {
 // guardRank orders the two operands of a comparison: the subject of a guard is the operand that is less
 // "bound-like". 0: constants and freshly computed values; 1: quantities of trusted objects (keys, structure
 // descriptions, system parameters); 2: everything else (fields of messages and proofs, arguments, loop keys).
+// relFor orients a comparison of two big.Ints with the operand that denotes the same object as v as subject:
+// returns the relation and the term of the other operand (x.Cmp(one) >= 0 and one.Cmp(x) <= 0 are the same guard).
+func (g Guard) relFor(v ssa.Value, be *BigEval) (string, Term, bool) {
+	if g.Kind != "big" || v == nil {
+		return "", Term{}, false
+	}
+	if g.SubjV != nil && siteOf(g.SubjV) == siteOf(v) {
+		return g.Rel, g.Bound, true
+	}
+	if g.Call == nil || len(g.Call.Call.Args) != 2 || be == nil {
+		return "", Term{}, false
+	}
+	ts := be.at(g.Call)
+	if len(ts) != 2 {
+		return "", Term{}, false
+	}
+	for k, op := range g.Call.Call.Args {
+		if siteOf(op) == siteOf(v) && op != g.SubjV {
+			return relFlip[g.Rel], ts[1-k], true
+		}
+	}
+	return "", Term{}, false
+}
+
+// intRel orients an integer comparison as `x REL y` for the two given affine strings, whichever is the subject.
+func (g Guard) intRel(x, y string) (string, bool) {
+	if g.Kind != "int" {
+		return "", false
+	}
+	x, y = parseAffine(x).String(), parseAffine(y).String()
+	if parseAffine(g.Subject).String() == x && g.BoundA.String() == y {
+		return g.Rel, true
+	}
+	if parseAffine(g.Subject).String() == y && g.BoundA.String() == x {
+		return relFlip[g.Rel], true
+	}
+	return "", false
+}
+
 // relBetween orients a comparison of two big.Ints as `subj REL bound`, whichever operand the code put first
 // (x.Cmp(p) < 0 and p.Cmp(x) > 0 are the same guard).
 func (g Guard) relBetween(subj string, bound Term) (string, bool) {
